@@ -159,6 +159,8 @@ def execute(sc, mutant=None):
 
         # an application that reconnects from inside the link-error notification (auto-reconnect)
         # and sends a request at once: the first `recb` notifications do that
+        from harness.vsched import vthreading as _vt
+        app_lock = _vt.RLock()
         if sc.get('recb'):
             left = [len(sc['recb'])]
 
@@ -166,12 +168,9 @@ def execute(sc, mutant=None):
                 if left[0] > 0:
                     p = sc['recb'][len(sc['recb']) - left[0]]
                     left[0] -= 1
-                    st['cb_busy'] = True
-                    try:
+                    with app_lock:
                         do_open()
                         do_send('send', p)
-                    finally:
-                        st['cb_busy'] = False
             cf.connection_failed.add_callback(on_link_error)
             cf.connection_lost.add_callback(on_link_error)
             cf.disconnected_link_error.add_callback(on_link_error)
@@ -184,16 +183,17 @@ def execute(sc, mutant=None):
                 # still reconnecting in another thread: a send_packet() call racing with close +
                 # open belongs to whichever session holds the link when it gets the send lock, and
                 # the 'send' event (logged before the call) would name the wrong one.
-                for _ in range(300):
-                    if not st.get('cb_busy'):
-                        break
-                    vtime.sleep(0.001)
+                # (and two threads never open the same Crazyflie at once): the application's own
+                # lock around its link operations
                 if k == 'open':
-                    do_open()
+                    with app_lock:
+                        do_open()
                 elif k in ('send', 'sendq', 'sendq2'):
-                    do_send(k, op[1])
+                    with app_lock:
+                        do_send(k, op[1])
                 elif k == 'close':
-                    cf.close_link()
+                    with app_lock:
+                        cf.close_link()
                 elif k == 'lerr':
                     if dev.link is not None:
                         dev._fail_driver(dev.link)
